@@ -47,7 +47,8 @@ Record Kinv (w : world) : Prop := mkK {
   k_once : forall tid c, In (tid, HCollector c) (tided w) -> tid = c /\ open_coll w c = true;
   k_soon : forall h, In (None, h) (ready w) -> nocoll_b h = true;
   k_zero : t_collect (cfg w) = 0 -> collectors w = [];
-  k_sess : osteps [] (slog (glog w)) = Some (outgoing (sess w)) }.
+  k_sess : osteps [] (slog (glog w)) = Some (outgoing (sess w));
+  k_wire : wire (out w) = gwire (glog w) }.
 
 Lemma open_collector_frame w w' : collectors w' = collectors w -> queues w' = queues w -> forall d, open_collector w' d = open_collector w d.
 Proof. intros A B d. unfold open_collector. rewrite A, B. reflexivity. Qed.
@@ -63,17 +64,19 @@ Record kx (w w' : world) : Prop := mkKx {
   kx_tided : forall tid c, In (tid, HCollector c) (tided w') -> In (tid, HCollector c) (tided w);
   kx_ctimers : forall when tid c, In (when, tid, HCollector c) (timers w') -> In (when, tid, HCollector c) (timers w);
   kx_ready : forall h, In (None, h) (ready w') -> In (None, h) (ready w) \/ nocoll_b h = true;
-  kx_sess : exists l, slog (glog w') = slog (glog w) ++ l /\ osteps (outgoing (sess w)) l = Some (outgoing (sess w')) }.
+  kx_sess : exists l, slog (glog w') = slog (glog w) ++ l /\ osteps (outgoing (sess w)) l = Some (outgoing (sess w'));
+  kx_wire : exists m, wire (out w') = wire (out w) ++ m /\ gwire (glog w') = gwire (glog w) ++ m }.
 
 Lemma kx_refl w : kx w w.
-Proof. constructor; auto. exists []. rewrite app_nil_r. split; reflexivity. Qed.
+Proof. constructor; auto; exists []; rewrite ?app_nil_r; split; reflexivity. Qed.
 Lemma kx_trans a b c : kx a b -> kx b c -> kx a c.
 Proof.
-  intros [A1 A2 A3 A4 A5 At A6 (m1 & As1 & As2)] [B1 B2 B3 B4 B5 Bt B6 (m2 & Bs1 & Bs2)]. constructor; try congruence.
+  intros [A1 A2 A3 A4 A5 At A6 (m1 & As1 & As2) (n1 & Aw1 & Aw2)] [B1 B2 B3 B4 B5 Bt B6 (m2 & Bs1 & Bs2) (n2 & Bw1 & Bw2)]. constructor; try congruence.
   - intros tid x H. apply A5, B5, H.
   - intros when tid x H. apply At, Bt, H.
   - intros h H. destruct (B6 h H) as [H1|H1]; [apply A6; exact H1|right; exact H1].
   - exists (m1 ++ m2). rewrite Bs1, As1, app_assoc. split; [reflexivity|]. rewrite osteps_app, As2. exact Bs2.
+  - exists (n1 ++ n2). rewrite Bw1, Aw1, Bw2, Aw2, !app_assoc. split; reflexivity.
 Qed.
 Lemma same_kx w w' : same w w' -> kx w w'.
 Proof.
@@ -86,7 +89,7 @@ Qed.
 
 Lemma kx_K w w' : kx w w' -> Kinv w -> Kinv w'.
 Proof.
-  intros [A1 A2 A3 A4 A5 At A6 (m & As1 & As2)] [K1 K2 K3 K4 K5 K6 K7 K8]. constructor.
+  intros [A1 A2 A3 A4 A5 At A6 (m & As1 & As2) (n & Aw1 & Aw2)] [K1 K2 K3 K4 K5 K6 K7 K8 K9]. constructor.
   - intros d. unfold w_pending. rewrite (open_collector_frame w w' A1 A2 d).
     rewrite <- (lf_qlog d (glog w')), <- (lq_qlog d (glog w')), A3, lf_qlog, lq_qlog. apply K1.
   - intros c co. rewrite A1, A2. apply K2.
@@ -96,6 +99,7 @@ Proof.
   - intros h H. destruct (A6 h H) as [H1|H1]; [apply K6; exact H1|exact H1].
   - rewrite A4, A1. exact K7.
   - rewrite As1, osteps_app, K8. exact As2.
+  - rewrite Aw1, Aw2, K9. reflexivity.
 Qed.
 Lemma same_K w w' : same w w' -> Kinv w -> Kinv w'.
 Proof. intros Hs. apply kx_K, same_kx, Hs. Qed.
@@ -107,10 +111,10 @@ Lemma Xk_neutral f : neutral f -> Xk f.
 Proof. intros H w. apply same_kx, H. Qed.
 
 (* ------------------------------------------------------------------ primitives that the invariant does not notice *)
-Ltac nosess := exists []; rewrite app_nil_r; split; reflexivity.
+Ltac nosess := exists []; rewrite ?app_nil_r; split; reflexivity.
 Lemma Xk_call_later d h w : nocoll_b h = true -> kx w (snd (call_later d h w)).
 Proof.
-  intros Hc. constructor; try reflexivity; [| | |nosess].
+  intros Hc. constructor; try reflexivity; [| | |nosess|nosess].
   - intros tid c Hin. apply in_tided_call_later in Hin. destruct Hin as [Hin|Hin]; [|exact Hin].
     injection Hin as _ <-. discriminate.
   - intros when tid c Hin. cbn in Hin. apply in_app_iff in Hin. destruct Hin as [Hin|[Hin|[]]]; [exact Hin|].
@@ -118,22 +122,23 @@ Proof.
   - intros h0 Hin. left. exact Hin.
 Qed.
 Lemma Xk_cancel tid : Xk (cancel_timer tid).
-Proof. intros w. constructor; try reflexivity; [auto|auto|auto|nosess]. Qed.
+Proof. intros w. constructor; try reflexivity; [auto|auto|auto|nosess|nosess]. Qed.
 Lemma Xk_cancel_opt o : Xk (cancel_opt o). Proof. destruct o; [apply Xk_cancel|intros w; apply kx_refl]. Qed.
 Lemma Xk_put_store st s : Xk (put_store st s).
 Proof.
   intros w. destruct (put_store_frame st s w) as (F1 & F2 & F3 & _ & _ & F6).
-  constructor; [exact F6| | | | | | |]; try (destruct st as [|i]; cbn; [reflexivity|destruct (aget N.eqb i (insts w)); reflexivity]).
+  constructor; [exact F6| | | | | | | |]; try (destruct st as [|i]; cbn; [reflexivity|destruct (aget N.eqb i (insts w)); reflexivity]).
   - intros tid c. rewrite put_store_tided. auto.
   - intros when tid c. rewrite F1. auto.
   - intros h. rewrite F2. auto.
   - exists []. rewrite app_nil_r. destruct st as [|i]; cbn; [split; reflexivity|destruct (aget N.eqb i (insts w)); split; reflexivity].
+  - exists []. rewrite !app_nil_r. destruct st as [|i]; cbn; [split; reflexivity|destruct (aget N.eqb i (insts w)); split; reflexivity].
 Qed.
-Lemma Xk_put_task t tk : Xk (put_task t tk). Proof. intros w. constructor; try reflexivity; [auto|auto|auto|nosess]. Qed.
-Lemma Xk_put_inst i x : Xk (put_inst i x). Proof. intros w. constructor; try reflexivity; [auto|auto|auto|nosess]. Qed.
+Lemma Xk_put_task t tk : Xk (put_task t tk). Proof. intros w. constructor; try reflexivity; [auto|auto|auto|nosess|nosess]. Qed.
+Lemma Xk_put_inst i x : Xk (put_inst i x). Proof. intros w. constructor; try reflexivity; [auto|auto|auto|nosess|nosess]. Qed.
 Lemma Xk_call_soon h : nocoll_b h = true -> Xk (call_soon h).
 Proof.
-  intros Hc w. constructor; try reflexivity; [|auto| |nosess].
+  intros Hc w. constructor; try reflexivity; [|auto| |nosess|nosess].
   - intros tid c Hin. unfold tided, rdy, call_soon in *. cbn [ready set_ready timers] in Hin. rewrite flat_map_app in Hin. cbn in Hin.
     rewrite app_nil_r in Hin. exact Hin.
   - intros h0 Hin. cbn [call_soon ready set_ready] in Hin. apply in_app_iff in Hin. destruct Hin as [Hin|[Hin|[]]]; [left; exact Hin|right].
@@ -186,7 +191,7 @@ Qed.
 Lemma Xk_new_task k : Xk (fun w => snd (new_task k w)).
 Proof.
   intros w. unfold new_task. cbn [snd]. eapply kx_trans; [|apply Xk_call_soon; reflexivity].
-  constructor; try reflexivity; [auto|auto|auto|nosess].
+  constructor; try reflexivity; [auto|auto|auto|nosess|nosess].
 Qed.
 Lemma Xk_finish_task t : Xk (finish_task t).
 Proof. intros w. unfold finish_task. destruct (get_task t w); [apply Xk_put_task|apply kx_refl]. Qed.
@@ -485,6 +490,7 @@ Proof.
   - intros h Hin. cbn [ready set_timers set_ready] in Hin. apply in_app_iff in Hin. destruct Hin as [Hin|Hin]; [left; exact Hin|].
     apply in_map_iff in Hin. destruct Hin as (t & E & _). discriminate.
   - exists []. rewrite app_nil_r. split; reflexivity.
+  - exists []. rewrite !app_nil_r. split; reflexivity.
 Qed.
 
 Theorem GGK_iteration arrivals rv w : all_notexp arrivals -> GGK [] w -> GGK [] (iteration arrivals rv w).
@@ -493,7 +499,7 @@ Proof.
 Qed.
 
 Lemma K_set_now t w : Kinv w -> Kinv (set_now t w).
-Proof. intros [K1 K2 K3 K4 K5 K6 K7 K8]. constructor; assumption. Qed.
+Proof. intros [K1 K2 K3 K4 K5 K6 K7 K8 K9]. constructor; assumption. Qed.
 
 Theorem GGK_run : forall fuel events t_end rv w, Forall (fun e => soon_ok (snd e) = true) events -> GGK [] w ->
   GGK [] (fst (run fuel events t_end rv w)).
@@ -580,3 +586,9 @@ Proof.
   intros Hd w. pose proof (k_sess _ (proj2 (GGK_reachable s sc Hd))) as H. fold w in H.
   rewrite (osteps_run _ _ _ H). apply assign_cycle.
 Qed.
+
+(* ------------------------------------------------------------------ the bytes on the wire *)
+(* the transmissions in the observable trace are exactly the logged transmissions, encoded: in every reachable state *)
+Theorem reachable_wire s sc : d_scenario s = Some sc ->
+  let w := fst (run_scenario sc) in wire (out w) = gwire (glog w).
+Proof. intros Hd w. exact (k_wire _ (proj2 (GGK_reachable s sc Hd))). Qed.
